@@ -399,6 +399,11 @@ class C16:
                     test = defs[test.id][0]         # an explaining variable stands for its definition
                 if isinstance(n, ast.If) and n is not blk and any(isinstance(x, ast.Raise) and "CloudFileExistsError" in ast.unparse(x) for x in ast.walk(n)) \
                         and any(isinstance(x, ast.Name) and x.id in (to_dir[0], has[0]) for x in ast.walk(test)):
+                    if isinstance(test, ast.BoolOp) and isinstance(test.op, ast.And):
+                        # a merged test (`if <guard> and not self.paths_match(...)`): the guard is the part about the two directory flags
+                        mine = [v for v in test.values if any(isinstance(x, ast.Name) and x.id in (to_dir[0], from_dir[0], has[0]) for x in ast.walk(v))]
+                        if mine and len(mine) < len(test.values):
+                            test = mine[0] if len(mine) == 1 else ast.BoolOp(op=ast.And(), values=mine)
                     try:
                         got = predform.dnf(test)
                         want = predform.dnf(predform.parse("not {t} or {t} != {f} or {h}".format(t=to_dir[0], f=from_dir[0], h=has[0])))
